@@ -112,7 +112,7 @@ func checkArbitrary(script *lookupScript) (viol string, oc rawOutcome) {
 	}
 
 	// lookup 2: another name, well-formed upstream
-	ag := &addrGen{scope: 200}
+	ag := &addrGen{scope: 12}
 	s2 := goodScript(ag, 3600)
 	up.begin(otherName, &s2)
 	t0 := time.Now()
